@@ -3,7 +3,7 @@
   witnesses and non-vacuity examples; helper lemmas are in `FwdVerif/Lemmas/C13.lean`).
 
   A. every exit path reports the request complete exactly once, under its own method, with the
-     status written to the client             (false of the unchanged code: F40; F12 is repaired)
+     status written to the client             (F12 and F40 are repaired: no class is excluded)
   B. hence, after any set of completed exchanges in any interleaving, every in-flight series is 0
      and the request counter equals the number of requests, per series and in total
   C. the in-flight gauge is never negative at any instant (on every path of the grammar)
@@ -23,100 +23,105 @@ namespace C13
 
 /-! ## A. Exactly one completion report per request, on every exit path -/
 
-/-- full clause — FALSE of the unchanged code (F40), see the witnesses -/
-def c13_exactly_once_full : Prop :=
-  ∀ p : Path, p.valid = true → p.shutdown = false → p.events = p.expected
-
-/-- every path of the grammar that is not taken during shutdown and is not of the recorded defect
-    class (a CONNECT answered 101 by the upstream proxy) emits `read m` followed by exactly one
-    `wrote m status`, `m` the method of that request and `status` the status written to the client
-    (and nothing at all when no request was read) -/
-theorem c13_exactly_once_partial (p : Path) (hv : p.valid = true) (hs : p.shutdown = false)
-    (hd : p.defect = false) : p.events = p.expected :=
-  events_eq_expected (by simp [Path.good, hv, hs, hd])
+/-- every path of the grammar that is not taken during shutdown — no class excluded — emits `read m`
+    followed by exactly one `wrote m status`, `m` the method of that request and `status` the status
+    written to the client (and nothing at all when no request was read) -/
+theorem c13_exactly_once (p : Path) (hv : p.valid = true) (hs : p.shutdown = false) :
+    p.events = p.expected :=
+  events_eq_expected (by simp [Path.good, hv, hs])
 
 -- non-vacuity: a refusal, an upstream error, a client abort while downloading, a tunnel teardown,
--- a drain failure, the MITM hand-off, an upgrade, a read error, a rejected client CONNECT and a
--- CONNECT rejected inside the transport (the repaired F12) satisfy the hypotheses
+-- a drain failure, the MITM hand-off, an upgrade, a read error, a rejected client CONNECT, a
+-- CONNECT rejected inside the transport (the repaired F12) and a CONNECT — the client's, the
+-- transport's own — answered 101 by the upstream proxy (the repaired F40) satisfy the hypotheses
 example : (Path.refused .get 407 false).good = true ∧ (Path.roundTripError .post 502 true).good = true ∧
     (Path.response .get 200 true).good = true ∧ (Path.connectTunnel .closed).good = true ∧
     (Path.connectTunnel .drainFailure).good = true ∧ Path.mitmHandoff.good = true ∧
     (Path.upgrade .get .closed).good = true ∧ Path.readError.good = true ∧
     (Path.connectRejected 403 false).good = true ∧
     (Path.transportConnectRejected .get 403 false).good = true ∧
-    (Path.transportConnectRejected .post 407 true).good = true := by decide
+    (Path.transportConnectRejected .post 407 true).good = true ∧
+    (Path.connectRejected 101 false).good = true ∧
+    (Path.transportConnectRejected .get 101 false).good = true := by decide
 
 example : (Path.connectTunnel .closed).events = [.read .connect, .wrote .connect 200] := by decide
 example : (Path.response .head 304 false).events = [.read .head, .wrote .head 304] := by decide
+example : Path.mitmHandoff.events = [.read .connect, .wrote .connect 200] := by decide
 
 /-- the repaired F12: a request whose CONNECT the upstream proxy rejects inside the transport is
     reported complete once, under the CLIENT's method, with the upstream proxy's status — whatever
-    the method, whatever the (non-2xx, non-101) status, whether or not the write to the client failed -/
+    the method, whatever the non-2xx status (101 included: the repaired F40), whether or not the
+    write to the client failed -/
 theorem c13_transport_connect_rejection_reported (m : Method) (st : Nat) (w : Bool)
-    (hm : m ≠ .connect) (h2 : st / 100 ≠ 2) (h101 : st ≠ 101) :
+    (hm : m ≠ .connect) (h2 : st / 100 ≠ 2) :
     (Path.transportConnectRejected m st w).events = [.read m, .wrote m st] := by
   have hv : (Path.transportConnectRejected m st w).valid = true := by simp [Path.valid, hm, h2]
-  have hd : (Path.transportConnectRejected m st w).defect = false := by simp [Path.defect, h101]
-  exact c13_exactly_once_partial _ hv rfl hd
+  exact c13_exactly_once _ hv rfl
 
 example : (Path.transportConnectRejected .get 403 false).events = [.read .get, .wrote .get 403] := by decide
+example : (Path.transportConnectRejected .get 101 false).events = [.read .get, .wrote .get 101] := by decide
 
-/-- F40: a client CONNECT that the upstream proxy answers with 101 is never reported complete -/
-theorem c13_exactly_once_witness_101 :
-    ∃ p : Path, p.valid = true ∧ p.shutdown = false ∧
-      p.events = [.read .connect] ∧ p.expected = [.read .connect, .wrote .connect 101] :=
-  ⟨.connectRejected 101 false, by decide, by decide, by decide, by decide⟩
+/-- the repaired F40: the answer with which the upstream proxy rejects the client's CONNECT is reported
+    complete once, under CONNECT, with the upstream proxy's status — whatever the non-2xx status, 101
+    included, whether or not the write to the client failed -/
+theorem c13_connect_rejection_reported (st : Nat) (w : Bool) (h2 : st / 100 ≠ 2) :
+    (Path.connectRejected st w).events = [.read .connect, .wrote .connect st] := by
+  have hv : (Path.connectRejected st w).valid = true := by simp [Path.valid, h2]
+  exact c13_exactly_once _ hv rfl
 
-/-- F40 on the other rejection path: `GET https://…` whose transport-level CONNECT the upstream proxy
-    answers with 101 — the 101 is relayed and, being an error-free 101, never reported -/
-theorem c13_exactly_once_witness_101_transport :
-    ∃ p : Path, p.valid = true ∧ p.shutdown = false ∧
-      p.events = [.read .get] ∧ p.expected = [.read .get, .wrote .get 101] :=
-  ⟨.transportConnectRejected .get 101 false, by decide, by decide, by decide, by decide⟩
+example : (Path.connectRejected 101 false).events = [.read .connect, .wrote .connect 101] := by decide
 
-theorem c13_exactly_once_full_false : ¬ c13_exactly_once_full := by
-  intro h
-  have := h (.connectRejected 101 false) (by decide) (by decide)
-  exact absurd this (by decide)
+/-- whether a written response is reported does not depend on its shape: `writeResponse` reports
+    every response — any method, any status (a 101 or a CONNECT 2xx as well), written or failed —,
+    `writeTunnelResponse` is silent exactly when the head was written (its caller `tunnel` reports
+    at teardown) -/
+theorem c13_report_decided_by_caller (m : Method) (st : Nat) (w : Bool) :
+    writeResponse m st w = [.wrote m st] ∧
+      writeTunnelResponse m st w = (if w then [.wrote m st] else []) := by
+  refine ⟨writeResponse_wrote m st w, ?_⟩
+  cases w
+  · exact writeTunnelResponse_ok m st
+  · exact writeTunnelResponse_err m st
 
-/-- the skip rule is exact on the paths that do tunnel: the head write is silent and the one report
-    comes at teardown, whichever way the tunnel ends -/
-theorem c13_tunnel_reports_once (m : Method) (e : TunnelEnd) :
-    tunnel .connect 200 e = [.wrote .connect 200] ∧ tunnel m 101 e = [.wrote m 101] :=
-  ⟨tunnel_connect e, tunnel_upgrade m e⟩
+example : writeResponse .connect 101 false = [.wrote .connect 101] ∧
+    writeResponse .get 101 false = [.wrote .get 101] ∧ writeTunnelResponse .get 101 false = [] := by decide
 
-/-- a write error never suppresses the report -/
+/-- on the paths that do tunnel the head write is silent and the one report comes at teardown,
+    whichever way the tunnel ends and whatever the head -/
+theorem c13_tunnel_reports_once (m : Method) (st : Nat) (e : TunnelEnd) :
+    tunnel m st e = [.wrote m st] :=
+  tunnel_once m st e
+
+example : tunnel .connect 200 .closed = [.wrote .connect 200] ∧ tunnel .get 101 .drainFailure = [.wrote .get 101] ∧
+    tunnel .get 101 .writeError = [.wrote .get 101] := by decide
+
+/-- a write error never suppresses the report, on either way of writing -/
 theorem c13_write_error_reported (m : Method) (st : Nat) :
-    writeResponse m st true = [.wrote m st] := by
-  simp [writeResponse, skip_false_of_err]
+    writeResponse m st true = [.wrote m st] ∧ writeTunnelResponse m st true = [.wrote m st] :=
+  ⟨writeResponse_wrote m st true, writeTunnelResponse_err m st⟩
 
 /-! ## B. Conservation at quiescent points -/
 
-/-- full clause — FALSE of the unchanged code (F40) -/
-def c13_inflight_zero_full : Prop :=
-  ∀ (ps : List Path) (tr : List Event), (∀ p ∈ ps, p.valid = true ∧ p.shutdown = false) →
-    tr.Perm (ps.flatMap Path.events) → ∀ m, (run .zero tr).inflight m = 0
-
-/-- after any list of completed exchanges (any exit paths outside shutdown and the recorded defect
-    class F40 — transport-level CONNECT rejections included), observed in any order of events whatsoever (`Perm`: every interleaving across
-    connections), every in-flight series is 0 -/
-theorem c13_inflight_zero_partial (ps : List Path) (hg : ∀ p ∈ ps, p.good = true)
+/-- after any list of completed exchanges (any exit paths outside shutdown — no class excluded:
+    transport-level CONNECT rejections and CONNECTs answered 101 included), observed in any order of
+    events whatsoever (`Perm`: every interleaving across connections), every in-flight series is 0 -/
+theorem c13_inflight_zero (ps : List Path) (hg : ∀ p ∈ ps, p.valid = true ∧ p.shutdown = false)
     (tr : List Event) (hp : tr.Perm (ps.flatMap Path.events)) (m : Method) :
     (run .zero tr).inflight m = 0 := by
-  rw [run_inflight, reads_perm hp, wrotes_perm hp, reads_eq_wrotes_of_good ps hg m]
+  rw [run_inflight, reads_perm hp, wrotes_perm hp, reads_eq_wrotes_of_good ps (good_of_valid ps hg) m]
   simp [Counters.zero]
 
 /-- … each counter series holds exactly the number of requests with that method that were
     answered with that status … -/
-theorem c13_total_per_series_partial (ps : List Path) (hg : ∀ p ∈ ps, p.good = true)
+theorem c13_total_per_series (ps : List Path) (hg : ∀ p ∈ ps, p.valid = true ∧ p.shutdown = false)
     (tr : List Event) (hp : tr.Perm (ps.flatMap Path.events)) (st : Nat) (m : Method) :
     (run .zero tr).total st m = (ps.filter (Path.series st m)).length := by
-  rw [run_total, wrotesSt_perm hp, wrotesSt_of_good ps hg st m]
+  rw [run_total, wrotesSt_perm hp, wrotesSt_of_good ps (good_of_valid ps hg) st m]
   simp [Counters.zero]
 
 /-- … and the counter family sums to the number of requests read (Σ over any duplicate-free set
     of label pairs that covers the pairs that occurred) -/
-theorem c13_total_sum_partial (ps : List Path) (hg : ∀ p ∈ ps, p.good = true)
+theorem c13_total_sum (ps : List Path) (hg : ∀ p ∈ ps, p.valid = true ∧ p.shutdown = false)
     (tr : List Event) (hp : tr.Perm (ps.flatMap Path.events))
     (keys : List (Nat × Method)) (hnd : keys.Nodup)
     (hcov : ∀ p ∈ ps, ∀ m, p.request = some m → (p.clientStatus, m) ∈ keys) :
@@ -124,7 +129,7 @@ theorem c13_total_sum_partial (ps : List Path) (hg : ∀ p ∈ ps, p.good = true
   unfold Counters.sumTotal
   have : (fun k : Nat × Method => (run .zero tr).total k.1 k.2)
       = fun k => (ps.filter (Path.series k.1 k.2)).length :=
-    funext fun k => c13_total_per_series_partial ps hg tr hp k.1 k.2
+    funext fun k => c13_total_per_series ps hg tr hp k.1 k.2
   rw [this]
   exact sum_series keys hnd ps hcov
 
@@ -135,7 +140,7 @@ example :
       .connectTunnel .closed, .readError]
     let tr : List Event := [.read .get, .read .connect, .wrote .get 200, .read .get,
       .wrote .get 407, .wrote .connect 200]
-    (∀ p ∈ ps, p.good = true) ∧ tr.Perm (ps.flatMap Path.events) ∧ numRequests ps = 3 ∧
+    (∀ p ∈ ps, p.valid = true ∧ p.shutdown = false) ∧ tr.Perm (ps.flatMap Path.events) ∧ numRequests ps = 3 ∧
       ([(200, Method.get), (407, .get), (200, .connect)] : List (Nat × Method)).Nodup := by
   refine ⟨by decide, ?_, by decide, by decide⟩
   show List.Perm _ [Event.read .get, .wrote .get 200, .read .get, .wrote .get 407,
@@ -149,15 +154,13 @@ example :
     c.inflight .get = 0 ∧ c.inflight .connect = 0 ∧ c.total 403 .get = 1 ∧ c.total 403 .connect = 1 := by
   decide
 
-theorem c13_inflight_zero_full_false : ¬ c13_inflight_zero_full := by
-  intro h
-  have := h [.connectRejected 101 false] _ (by decide) (List.Perm.refl _) .connect
-  exact absurd this (by decide)
-
-/-- F40 on the counters: in-flight{CONNECT} stays 1 and nothing is counted -/
-theorem c13_inflight_zero_witness_101 :
-    let c := run .zero (Path.connectRejected 101 false).events
-    c.inflight .connect = 1 ∧ c.total 101 .connect = 0 := by
+-- the repaired F40 on the counters: a client CONNECT answered 101 and a `GET https://…` whose
+-- transport-level CONNECT is answered 101 — in-flight back at 0, each counted once under its own
+-- method with status 101; next to them an upgrade tunnel, whose 101 is reported once as before
+example :
+    let c := run .zero ([Path.connectRejected 101 false, .transportConnectRejected .get 101 false,
+      .upgrade .get .closed].flatMap Path.events)
+    c.inflight .connect = 0 ∧ c.inflight .get = 0 ∧ c.total 101 .connect = 1 ∧ c.total 101 .get = 2 := by
   decide
 
 /-! ## C. The gauge is never negative -/
@@ -165,7 +168,7 @@ theorem c13_inflight_zero_witness_101 :
 /-- at every instant (every prefix of every order-preserving interleaving of the exchanges'
     traces) every in-flight series is ≥ 0 — for EVERY list of paths of the grammar, no class
     excluded: every path reports its request under the request's own method, at most once and never
-    before it was read (the F40 paths and the shutdown path leave the gauge too high, never too low) -/
+    before it was read (the shutdown path leaves the gauge too high, never too low) -/
 theorem c13_gauge_nonneg (ps : List Path) (tr : List Event) (hi : Interleaving (ps.map Path.events) tr)
     (pre suf : List Event) (h : tr = pre ++ suf) (m : Method) :
     0 ≤ (run .zero pre).inflight m := by
